@@ -288,6 +288,11 @@ func (server *Server) serve(l net.Listener) error {
 			return err
 		}
 
+		// The connection is known to the manager from the moment it is accepted: a Stop which
+		// runs before its goroutine gets going closes it, and it is not served afterwards.
+		if !server.addPendingConn(conn) {
+			continue
+		}
 		go server.receive(conn, nil)
 	}
 }
@@ -316,26 +321,27 @@ func (server *Server) tlsServe(l net.Listener, tlsConfig *tls.Config) error {
 
 		// The handshake runs in the goroutine of the connection: a client that fails,
 		// stalls or abandons its handshake must not stop the accept loop.
-		go server.tlsReceive(tls.Server(conn, tlsConfig))
+		tlsConn := tls.Server(conn, tlsConfig)
+		if !server.addPendingConn(tlsConn) {
+			continue
+		}
+		go server.tlsReceive(tlsConn)
 	}
 }
 
 // tlsReceive completes the TLS handshake and handles the client connection.
 func (server *Server) tlsReceive(tlsConn *tls.Conn) error {
-	if !server.addPendingConn(tlsConn) {
-		return nil
-	}
 	if err := tlsConn.SetDeadline(time.Now().Add(tlsHandshakeTimeout)); err != nil {
 		server.removePendingConn(tlsConn)
 		return errors.Join(err, tlsConn.Close())
 	}
-	err := tlsConn.Handshake()
-	server.removePendingConn(tlsConn)
-	if err != nil {
+	if err := tlsConn.Handshake(); err != nil {
+		server.removePendingConn(tlsConn)
 		log.Error(err)
 		return errors.Join(err, tlsConn.Close())
 	}
 	if err := tlsConn.SetDeadline(time.Time{}); err != nil {
+		server.removePendingConn(tlsConn)
 		return errors.Join(err, tlsConn.Close())
 	}
 	tlsState := tlsConn.ConnectionState()
@@ -352,6 +358,8 @@ func (server *Server) receive(conn net.Conn, tlsState *tls.ConnectionState) erro
 	}()
 
 	verifPoint("conn.accepted")
+	// The connection stays pending until it is registered; whatever ends it before, it is forgotten.
+	defer server.removePendingConn(conn)
 	_, isPasswdRequired := server.ConfigRequirePass()
 
 	handlerConn := newConnWith(conn, tlsState)
@@ -372,7 +380,7 @@ func (server *Server) receive(conn net.Conn, tlsState *tls.ConnectionState) erro
 		}
 	}
 
-	server.AddConn(handlerConn)
+	server.registerAcceptedConn(handlerConn)
 	verifPoint("conn.registered")
 	defer func() {
 		server.RemoveConn(handlerConn)
